@@ -337,6 +337,8 @@ def _analyse_target(case, tier, props, p, meta, tdir, res, tr, jac_terms, seed):
         if "C02" in props:
             dual = ode.run_fex(p, tdir, dual=True)
             _c02(case, p, meta, tdir, res, dual, jac, J, structural, q, NEQ, tag, nat, seed, kind)
+            if kind == "cusparse" and NNZ and NS >= 1:
+                _c02_second_cell(case, p, tdir, res, jac, q, NEQ, NNZ, tag)
         if "C03" in props:
             _c03_target(case, p, meta, tdir, res, fex, jac, J, structural, q, NEQ, NNZ, NR, NH, NC, tag, kind)
     res["solver_s"] += q.time
@@ -392,6 +394,45 @@ def _c01_second_cell(case, p, tdir, res, fex, ref, q, NEQ, tag):
                   {"case": case.name, "target": tdir, "slot": i, "emitted": str(z3.simplify(R(got)))[:600], "law": str(z3.simplify(R(want)))[:600], "spec": _small_spec(case), **rp_extra, "replay_note": "terms of the compiled FexKernel run by one thread over two systems; a helper value or parameter of system 0 in system 1's derivative is visible in the emitted kernel text (y instead of y_cur)"})
         else:
             _unk(res, "C01", name, "solver " + r)
+    q.s.pop()
+
+
+def _c02_second_cell(case, p, tdir, res, jac, q, NEQ, NNZ, tag):
+    """cusparse, one thread, two systems: the second system's stored Jacobian values are the first system's
+    (verified against the derivative above) with that system's own abundances, parameters and helper values"""
+    jac2 = ode.run_jac(p, tdir, nsystem=2)
+    if jac2.compile_errors or not getattr(jac2, "data_vals", None) or len(jac2.data_vals) != 2 * NNZ or not getattr(jac, "data_vals", None):
+        _unk(res, "C02", f"{tag}:cell1", "two-system run unavailable")
+        return
+    off = 8 * NEQ
+    pairs = [(jac.y[i], jac2.y[NEQ + i]) for i in range(NEQ)]
+    pairs += [(v, z3.Real(f"{v}_1")) for v in jac.data.values() if is_sym(v) and z3.is_const(v)]
+    helper_syms = set()
+    for t in jac.data_vals:
+        if t is not None and is_sym(val_of(t)):
+            for a in _consts(R(t)):
+                nm = str(a)
+                if nm.startswith("Get") and "@" not in nm:
+                    helper_syms.add(nm)
+    pairs += [(z3.Real(nm), z3.Real(f"{nm}@{off}")) for nm in sorted(helper_syms)]
+    q.s.push()
+    q.s.add(z3.Real(f"GetNumDens@{off}") != 0)
+    for k in range(NNZ):
+        a0, a1 = jac.data_vals[k], jac2.data_vals[NNZ + k]
+        name = f"{tag}:cell1:data[{k}]"
+        if a0 is None or a1 is None:
+            if (a0 is None) != (a1 is None):
+                _viol(res, "C02", f"{case.name}/{tdir}:second-cell:unwritten:{k}", f"cusparse kernel, second system: stored value {k} is {'never written' if a1 is None else 'written'} while the first system's is {'never written' if a0 is None else 'written'}", {"case": case.name, "target": tdir})
+            continue
+        want = z3.substitute(R(a0), *pairs) if is_sym(val_of(a0)) else a0
+        r, m = q.differs(a1, want)
+        if r == "unsat":
+            _ok(res, "C02")
+        elif r == "sat":
+            _viol(res, "C02", f"{case.name}/{tdir}:second-cell:data:{k}", f"cusparse Jacobian kernel, second system: stored value {k} is {str(z3.simplify(R(a1)))[:200]} but with that system's own abundances, parameters and helper values it is {str(z3.simplify(R(want)))[:200]}",
+                  {"case": case.name, "target": tdir, "position": k, "emitted": str(z3.simplify(R(a1)))[:600], "expected": str(z3.simplify(R(want)))[:600], "spec": _small_spec(case), "replay_note": "terms of the compiled JacKernel run by one thread over two systems (see C01's native two-system replay for the same defect class)"})
+        else:
+            _unk(res, "C02", name, "solver " + r)
     q.s.pop()
 
 
